@@ -85,6 +85,11 @@ func (w *WalletManager) constructTxIn(inputs []*TxIn, lockTime uint64) (*wire.Ms
 			return nil, nil, massutil.ZeroAmount(), ErrInvalidParameter
 		}
 
+		// the index is the client's; an unmined parent is found by its hash alone
+		if uint64(txIn.PreviousOutPoint.Index) >= uint64(len(prevTx.TxOut)) {
+			logging.CPrint(logging.ERROR, "output index out of range", logging.LogFormat{"txid": input.TxId, "vout": input.Vout})
+			return nil, nil, massutil.ZeroAmount(), ErrInvalidIndex
+		}
 		prevTxOut := prevTx.TxOut[txIn.PreviousOutPoint.Index]
 		pks, err := utils.ParsePkScript(prevTxOut.PkScript, w.chainParams)
 		if err != nil {
